@@ -184,6 +184,25 @@ func genC06(t *rapid.T) c06Case {
 			sm := written.(map[string]any)
 			interpolateSomeLeaves(t, sm, fmt.Sprintf("G%d_%s", g, strings.ToUpper(strings.ReplaceAll(name, "-", "_"))), groups[g].defs)
 			vm := v.(map[string]any)
+			if rapid.IntRange(0, 1).Draw(t, "ownvalue") == 0 {
+				// every included project defines OWN_VALUE in its own environment: each sees its own (a nested
+				// project sees the one of the project that includes it, which is its parent environment)
+				lw, _ := sm["labels"].(map[string]any)
+				lp, _ := vm["labels"].(map[string]any)
+				if (lw != nil || sm["labels"] == nil) && (lp != nil || vm["labels"] == nil) {
+					if lw == nil {
+						lw, lp = map[string]any{}, map[string]any{}
+						sm["labels"], vm["labels"] = lw, lp
+					}
+					owner := g
+					for groups[owner].parent != 0 {
+						owner = groups[owner].parent
+					}
+					lw["probe.own"] = "${OWN_VALUE}"
+					lp["probe.own"] = fmt.Sprintf("from-group-%d", owner)
+					cs.Features = append(cs.Features, "sibling-includes-own-environment")
+				}
+			}
 			if rapid.IntRange(0, 2).Draw(t, "emptyparent") == 0 {
 				// the parent environment sets the variable to the empty string: that is a definition, the
 				// included project's own value must not replace it
@@ -288,7 +307,7 @@ func genC06(t *rapid.T) c06Case {
 			}
 		}
 		// a variable only the included projects define: the including project must not see it
-		lines = append(lines, "ONLY_INCLUDED=from-included-env")
+		lines = append(lines, "ONLY_INCLUDED=from-included-env", fmt.Sprintf("OWN_VALUE=from-group-%d", g))
 		envContent := strings.Join(lines, "\n") + "\n"
 		pd := baseDir(g)
 		if gr.envFile {
